@@ -415,6 +415,15 @@ func genHistory(t *rapid.T) HistCase {
 	if o.FloorSegmentSize > 100000 {
 		o.FloorSegmentSize = 100000
 	}
+	// ... except for the one large-floor configuration the repository itself documents: the
+	// "single segment" policy of TestCalcBudgetForSingleSegmentMergePolicy (one segment per tier,
+	// floor = maximum size), under which every small segment counts as floor-sized, the budget is
+	// one segment and the loop must merge everything into one (since seeded change C19-6)
+	single := rapid.IntRange(0, 9).Draw(t, "singleSegmentPolicy") == 0
+	if single {
+		o = Opts{MaxSegmentsPerTier: 1, MaxSegmentSize: 1 << 30, TierGrowth: 10, SegmentsPerMergeTask: rapid.SampledFrom([]int{2, 10}).Draw(t, "singlePer"),
+			FloorSegmentSize: rapid.SampledFrom([]int64{1 << 30, 1 << 29, 1<<29 + 1<<28}).Draw(t, "singleFloor"), ReclaimDeletesWeight: 2}
+	}
 	var c HistCase
 	c.Opts = o
 	long := rapid.IntRange(0, 19).Draw(t, "long") == 0
@@ -426,6 +435,9 @@ func genHistory(t *rapid.T) HistCase {
 	small := rapid.SampledFrom([]int64{1, o.FloorSegmentSize, 2 * o.FloorSegmentSize, o.MaxSegmentSize / 50}).Draw(t, "typical")
 	if small < 1 {
 		small = 1
+	}
+	if single {
+		small = rapid.SampledFrom([]int64{1, 100, 1000}).Draw(t, "singleTypical")
 	}
 	for i := 0; i < n; i++ {
 		if rapid.IntRange(0, 5).Draw(t, "stepKind") == 0 {
@@ -443,7 +455,11 @@ func genHistory(t *rapid.T) HistCase {
 			var sz int64
 			switch rapid.IntRange(0, 7).Draw(t, "sizeKind") {
 			case 0:
-				sz = genSize(t, o, "arr")
+				if single {
+					sz = rapid.Int64Range(0, 5000).Draw(t, "arrSingle")
+				} else {
+					sz = genSize(t, o, "arr")
+				}
 			case 1:
 				sz = rapid.Int64Range(0, 3*small).Draw(t, "arrVar")
 			default:
@@ -462,7 +478,11 @@ func TestC19History(t *testing.T) {
 		var st histStats
 		f := propHistory(c, &st)
 		nt := st.arrivals >= 100 && st.deletes >= 1 && st.tasks >= 5
-		ev.Case(vlib.Canon(c), nt, "history")
+		hcls := []string{"history"}
+		if c.Opts.FloorSegmentSize >= c.Opts.MaxSegmentSize/2 {
+			hcls = append(hcls, "history:single-segment-policy")
+		}
+		ev.Case(vlib.Canon(c), nt, hcls...)
 		ev.AddExtra("history_fixpoints_checked", st.fixpoints)
 		ev.AddExtra("history_tasks_executed", st.tasks)
 		if len(c.Steps) <= 12 {
